@@ -10,11 +10,21 @@
 //! after a restart that first accepts further creations (the manager of a restarted
 //! process knows nothing of what is stored until `recover` tells it) — and a further
 //! sequential creation is attempted.
+//!
+//! Quota shapes: each resource of the tenant either has a limit of 1–2 from the start or
+//! has NO limit configured (`None`); a limit can be introduced later with
+//! `TenantManager::update_quotas` (controller thread, between phases), followed by further
+//! sequential creations on the same manager.  Fault kind `wal_io_error`: in some runs the
+//! WAL lives on `kit::simfs::SimFs` and one chosen file-system call of the WAL (the `open`
+//! of a new log file after start / after a checkpoint, or a `write`) fails; the creation
+//! that hits it must be refused, leave nothing behind and leave the counters equal to what
+//! is stored.
 
 use crate::kit::core::*;
 use crate::kit::model::*;
 use crate::kit::pers::*;
 use crate::kit::rng::Streams;
+use crate::kit::simfs::SimFs;
 use crate::kit::threads::{interleavings, ThreadCtl};
 use samyama::graph::PropertyMap;
 use samyama::persistence::{PersistenceError, PersistenceManager, ResourceQuotas, TenantError};
@@ -36,36 +46,61 @@ struct Attempt {
     id: u64,
     ok: bool,
     quota_error: bool,
+    /// the call failed with PersistenceError::Wal (only expected under an injected WAL fault)
+    wal_error: bool,
     err: String,
 }
 
-fn open(dir: &Path, qn: usize, qe: usize) -> Result<PersistenceManager, String> {
+type Quota = [Option<usize>; 2];
+
+fn quotas_of(q: Quota) -> ResourceQuotas {
+    let mut r = ResourceQuotas::unlimited();
+    r.max_nodes = q[0];
+    r.max_edges = q[1];
+    r
+}
+
+fn qdesc(q: Quota) -> String {
+    let d = |x: Option<usize>| x.map(|v| v.to_string()).unwrap_or_else(|| "none".into());
+    format!("nodes={} edges={}", d(q[0]), d(q[1]))
+}
+
+fn open(dir: &Path, q: Quota) -> Result<PersistenceManager, String> {
     let pm = PersistenceManager::new(dir).map_err(|e| format!("open: {e}"))?;
-    let mut q = ResourceQuotas::unlimited();
-    q.max_nodes = Some(qn);
-    q.max_edges = Some(qe);
-    pm.tenants().create_tenant(TENANT.to_string(), "quota tenant".to_string(), Some(q)).map_err(|e| format!("create_tenant: {e}"))?;
+    pm.tenants().create_tenant(TENANT.to_string(), "quota tenant".to_string(), Some(quotas_of(q))).map_err(|e| format!("create_tenant: {e}"))?;
     Ok(pm)
 }
 
-fn create(pm: &PersistenceManager, who: &str, kind: usize, id: u64) -> Attempt {
+/// `payload` > 0: the entity carries one string property of that many bytes (a WAL record
+/// larger than the log's write buffer goes to the file system at once).
+fn create(pm: &PersistenceManager, who: &str, kind: usize, id: u64, payload: usize) -> Attempt {
+    let mut props = PropertyMap::new();
+    if payload > 0 {
+        props.insert("blob".to_string(), samyama::graph::PropertyValue::String("x".repeat(payload)));
+    }
     let r = if kind == 0 {
-        pm.persist_create_node(TENANT, &mk_node(id, &["Q".to_string()], PropertyMap::new()))
+        pm.persist_create_node(TENANT, &mk_node(id, &["Q".to_string()], props))
     } else {
-        pm.persist_create_edge(TENANT, &mk_edge(id, 1, 1, "R", PropertyMap::new()))
+        pm.persist_create_edge(TENANT, &mk_edge(id, 1, 1, "R", props))
     };
     match r {
-        Ok(()) => Attempt { who: who.to_string(), kind, id, ok: true, quota_error: false, err: String::new() },
+        Ok(()) => Attempt { who: who.to_string(), kind, id, ok: true, quota_error: false, wal_error: false, err: String::new() },
         Err(e) => {
             let quota_error = matches!(e, PersistenceError::Tenant(TenantError::QuotaExceeded { .. }));
-            Attempt { who: who.to_string(), kind, id, ok: false, quota_error, err: e.to_string() }
+            let wal_error = matches!(e, PersistenceError::Wal(_));
+            Attempt { who: who.to_string(), kind, id, ok: false, quota_error, wal_error, err: e.to_string() }
         }
     }
 }
 
 struct Check<'a> {
     pm: &'a PersistenceManager,
-    quota: [usize; 2],
+    /// the limits configured at this moment (None = no limit on that resource)
+    quota: Quota,
+    /// the limits that were configured while the concurrent writers ran
+    writers_quota: Quota,
+    /// how many injected WAL I/O errors fired so far (each may refuse one creation)
+    wal_faults_fired: u64,
     out: Vec<Violation>,
     sched: String,
 }
@@ -73,7 +108,7 @@ struct Check<'a> {
 impl<'a> Check<'a> {
     fn fail(&mut self, sig: String, detail: String, step: usize) {
         if self.out.len() < 8 {
-            self.out.push(Violation::new(sig, format!("{detail}; quota nodes={} edges={}; schedule: {}", self.quota[0], self.quota[1], self.sched), step));
+            self.out.push(Violation::new(sig, format!("{detail}; quota {}; schedule: {}", qdesc(self.quota), self.sched), step));
         }
     }
     fn stored(&mut self, kind: usize, step: usize) -> Option<BTreeMap<u64, usize>> {
@@ -111,14 +146,22 @@ impl<'a> Check<'a> {
             let k = KINDS[kind];
             let accepted: BTreeSet<u64> = attempts.iter().filter(|a| a.kind == kind && a.ok).map(|a| a.id).collect();
             let refused: BTreeSet<u64> = attempts.iter().filter(|a| a.kind == kind && !a.ok).map(|a| a.id).collect();
-            if phase == "after_writers" && accepted.len() > self.quota[kind] {
-                self.fail(
-                    format!("C18/quota_exceeded/{k}/concurrent_writers"),
-                    format!("{} {k} accepted ({:?}) with a quota of {}", accepted.len(), attempts.iter().filter(|a| a.kind == kind && a.ok).map(|a| format!("{}:{}", a.who, a.id)).collect::<Vec<_>>(), self.quota[kind]),
-                    step,
-                );
+            if let (true, Some(q)) = (phase.starts_with("after_writers"), self.writers_quota[kind]) {
+                if accepted.len() > q {
+                    self.fail(
+                        format!("C18/quota_exceeded/{k}/concurrent_writers"),
+                        format!("{} {k} accepted ({:?}) with a quota of {q}", accepted.len(), attempts.iter().filter(|a| a.kind == kind && a.ok).map(|a| format!("{}:{}", a.who, a.id)).collect::<Vec<_>>()),
+                        step,
+                    );
+                }
             }
+            // a creation may be refused by the quota, or — once per injected WAL I/O error
+            // that fired — by the log; anything else is not a refusal the scenario causes
+            let wal_refused = attempts.iter().filter(|a| !a.ok && a.wal_error).count() as u64;
             for a in attempts.iter().filter(|a| a.kind == kind && !a.ok && !a.quota_error) {
+                if a.wal_error && wal_refused <= self.wal_faults_fired {
+                    continue;
+                }
                 self.fail(format!("C18/unexpected_error/{k}"), format!("{} creating {k} id {} failed with '{}' (not a quota refusal)", a.who, a.id, a.err), step);
             }
             let Some(stored) = self.stored(kind, step) else { continue };
@@ -143,7 +186,9 @@ impl<'a> Check<'a> {
             let n_stored: usize = stored.values().sum();
             if let Some(u) = self.usage(kind, step) {
                 if u != n_stored {
-                    self.fail(format!("C18/usage_vs_stored/{k}/{phase}"), format!("get_usage reports {u} {k}, storage holds {n_stored}"), step);
+                    // state class: whether a limit is configured for the resource right now
+                    let lim = if self.quota[kind].is_none() { "/no_limit_configured" } else { "" };
+                    self.fail(format!("C18/usage_vs_stored/{k}/{phase}{lim}"), format!("get_usage reports {u} {k}, storage holds {n_stored}"), step);
                 }
             }
         }
@@ -161,13 +206,14 @@ impl Scenario for C18 {
         }
     }
     fn rule(&self) -> &'static str {
-        "case = quota (1..2 nodes, 1..2 edges), 0..1 sequential creations before, 2..3 writer threads each performing 1..2 persist_create_node/edge calls for distinct ids, a pre-drawn list of scheduler picks (one per decision, taken modulo the parked threads), then 1..2 recover calls on the same manager (1 run in 3 after a restart; 1 run in 3 after a restart on the same directory that first accepts 1..2 further creations, i.e. recover runs on a manager whose counters are already running) and a final sequential creation per kind. Threads are real; they park at 'start', at every H4 point and before every TenantManager lock acquisition (hook H7: lock.read / lock.write); exactly one runs at a time. Non-trivial = at least two writers were simultaneously inside the admission window (between entering the quota reservation and their usage update), or simultaneously parked before a TenantManager lock acquisition. Distinct = hash of (quotas, writer programs, executed schedule with threads renamed by first appearance, recover plan)."
+        "case = quota (1..2 nodes, 1..2 edges), 0..1 sequential creations before, 2..3 writer threads each performing 1..2 persist_create_node/edge calls for distinct ids, a pre-drawn list of scheduler picks (one per decision, taken modulo the parked threads), then 1..2 recover calls on the same manager (1 run in 3 after a restart; 1 run in 3 after a restart on the same directory that first accepts 1..2 further creations, i.e. recover runs on a manager whose counters are already running) and a final sequential creation per kind. Threads are real; they park at 'start', at every H4 point and before every TenantManager lock acquisition (hook H7: lock.read / lock.write); exactly one runs at a time. Non-trivial = at least two writers were simultaneously inside the admission window (between entering the quota reservation and their usage update), or simultaneously parked before a TenantManager lock acquisition. Distinct = hash of (quotas, writer programs, executed schedule with threads renamed by first appearance, recover plan). Quota shapes (knobs limit_nodes/limit_edges): both resources limited (5 in 10), only nodes / only relationships limited (2 in 10 each), nothing limited (1 in 10); such runs (and 1 in 6 of the others) continue, between the writers and the recovery part, with an optional update_quotas that introduces/replaces the limits (1..2) followed by 1..2 sequential creations on the same manager, and 1 in 3 of them have no recover call at all. Fault kind wal_io_error (1 run in 4): the WAL directory lives on kit::simfs::SimFs, half of these runs use 9000-byte WAL records (larger than the log's write buffer, so every append is file-system calls), an optional checkpoint after the sequential creation closes the current log file, and the nth (0..3) WAL file-system call counted from the start of the writers (or of the sequential creations after them) fails with EIO / ENOSPC / EACCES; restart and recovery run fault-free."
     }
     fn real_components(&self) -> Vec<&'static str> {
         vec![
             "samyama::persistence::PersistenceManager::persist_create_node / persist_create_edge / recover on real OS threads",
             "samyama::persistence::TenantManager (real RwLocks)",
-            "samyama::persistence::PersistentStorage over real RocksDB on tmpfs; Wal (real files, real Mutex)",
+            "samyama::persistence::PersistentStorage over real RocksDB on tmpfs; Wal (real files, real Mutex; in runs with knob wal_on_simfs the WAL's files are on kit::simfs::SimFs behind samyama::verif::fs)",
+            "samyama::persistence::TenantManager::update_quotas, PersistenceManager::checkpoint",
         ]
     }
     fn stub_components(&self) -> Vec<&'static str> {
@@ -180,6 +226,8 @@ impl Scenario for C18 {
             "every critical section of TenantManager is one lock acquisition (or a nested pair) and is atomic between two H7 points; check-then-act split over two acquisitions — in any shape — therefore has a schedule point in the gap. Interleavings inside RocksDB / the WAL Mutex (inside put_node, inside append) are not explored: each is one call that takes and releases its own lock",
             "a restarted manager that accepts creations before recover(tenant) ran may legitimately exceed the quota (it cannot know what is stored); the oracle demands only what the statement says: after recover the counters equal what is stored, and from then on nothing is accepted at or above the quota",
             "'accepted' = the call returned Ok; 'refused' = it returned an error; the statement does not require that a creation is accepted while room remains, so under-admission is a probe, not a violation",
+            "a resource without a configured limit has no quota to exceed, but the statement's last clause (usage counters == entities persisted) has no such condition, so it is checked for every resource; once update_quotas has introduced a limit, a manager that has itself seen every creation (no restart) or has recovered the tenant must not accept a creation while storage holds >= the limit",
+            "under the injected WAL I/O error a creation may fail with PersistenceError::Wal — at most one creation per error that fired; it counts as a refused creation (must leave nothing behind, counters must equal what is stored). What the failed call leaves in the WAL files is not this property's subject",
             "only the tenant under test holds data, so scan_nodes/scan_edges (whose prefix scan is C17's subject) return exactly its keys",
         ]
     }
@@ -195,6 +243,11 @@ impl Scenario for C18 {
             "writer_parked_between_two_lock_acquisitions_of_one_call",
             "creation_on_restarted_manager_before_recover",
             "recover_on_manager_with_running_counters_and_stored_data",
+            "tenant_with_resource_without_limit",
+            "limit_introduced_later",
+            "creation_refused_after_limit_introduced",
+            "creation_refused_by_failed_wal_append",
+            "wal_append_failed_for_tenant_with_counted_entities",
         ]
     }
     fn extra_evidence(&self, _tier: Tier) -> Map<String, Value> {
@@ -221,9 +274,35 @@ impl Scenario for C18 {
         let writers = if s.knobs.chance(1, 3) { 3 } else { 2 };
         let edge_bias = s.knobs.below(4); // 0: nodes only (the property's own quantifier), else mixed
         let write_before_recover = s.knobs.chance(1, 3);
+        // quota shape: 0 = both resources limited (the property's own quantifier), 1 = only
+        // nodes limited, 2 = only relationships limited, 3 = nothing limited
+        let shape = s.knobs.weighted(&[5, 2, 2, 1]);
+        case.knobs.insert("limit_nodes".into(), json!(shape == 0 || shape == 1));
+        case.knobs.insert("limit_edges".into(), json!(shape == 0 || shape == 2));
+        // fault kind wal_io_error: the WAL lives on SimFs and one of its calls fails
+        let wal_fault = s.knobs.chance(1, 4);
+        case.knobs.insert("wal_on_simfs".into(), json!(wal_fault));
+        // WAL records larger than the log's write buffer (every append reaches the file system)
+        case.knobs.insert("payload".into(), json!(if wal_fault && s.knobs.chance(1, 2) { 9000 } else { 0 }));
         let r = &mut s.workload;
-        if r.chance(1, 4) {
+        let pre_chance = if wal_fault || shape != 0 { 2 } else { 1 };
+        if r.chance(pre_chance, 4) {
             case.events.push(json!({"op":"pre","kind": if edge_bias == 0 { 0 } else { r.below(2) }}));
+            if wal_fault && r.chance(1, 2) {
+                // PersistenceManager::checkpoint closes the current log file: the next append opens a new one
+                case.events.push(json!({"op":"checkpoint"}));
+            }
+        }
+        if wal_fault {
+            // the nth file-system call of the WAL from the start of the writers phase fails
+            let fr = &mut s.fault;
+            let phase = fr.below(2);
+            case.events.push(json!({"op":"walfail","phase":phase,"nth":fr.weighted(&[4, 2, 1, 1]),"err":fr.below(3)}));
+            // the H7 lock points are only sound while no thread parks holding a lock another
+            // one needs (see assumptions); that was verified for the success and quota-refusal
+            // paths.  Where the fault drives writers through the I/O-failure path the threads
+            // switch at the H4 points only.
+            case.knobs.insert("lock_points".into(), json!(phase != 0));
         }
         for _ in 0..writers {
             let n = if r.chance(1, 4) { 2 } else { 1 };
@@ -236,7 +315,20 @@ impl Scenario for C18 {
             case.events.push(json!({"op":"sched","pick":sr.below(6)}));
         }
         let r = &mut s.workload;
-        let recs = 1 + r.below(2);
+        if shape != 0 || wal_fault || r.chance(1, 6) {
+            // between phases (controller thread): a limit is introduced for the resources that
+            // had none / the limits are replaced; then sequential creations on the same manager
+            if r.chance(3, 4) {
+                case.events.push(json!({"op":"setq","nodes":1 + r.below(2),"edges":1 + r.below(2)}));
+            }
+            for _ in 0..1 + r.below(2) {
+                if wal_fault && r.chance(1, 2) {
+                    case.events.push(json!({"op":"midckpt"}));
+                }
+                case.events.push(json!({"op":"mid","kind": if edge_bias == 0 && shape == 0 { 0 } else { r.below(2) }}));
+            }
+        }
+        let recs = if shape != 0 && r.chance(1, 3) { 0 } else { 1 + r.below(2) };
         if write_before_recover {
             // a restarted process that accepts creations before it recovers the tenant
             let n = 1 + s.knobs.below(2);
@@ -249,7 +341,7 @@ impl Scenario for C18 {
             case.events.push(json!({"op":"recover"}));
         }
         case.events.push(json!({"op":"post","kind":0}));
-        if edge_bias != 0 {
+        if edge_bias != 0 || shape != 0 {
             case.events.push(json!({"op":"post","kind":1}));
         }
         case
@@ -268,7 +360,43 @@ impl Scenario for C18 {
         let qn = case.knob_u64("quota_nodes", 1).max(1) as usize;
         let qe = case.knob_u64("quota_edges", 1).max(1) as usize;
         let restart = case.knob_bool("restart_before_recover", false);
-        let pm = match open(&dir, qn, qe) {
+        // the limits configured from the start (None = no limit for that resource)
+        let q0: Quota = [if case.knob_bool("limit_nodes", true) { Some(qn) } else { None }, if case.knob_bool("limit_edges", true) { Some(qe) } else { None }];
+        let mut quota: Quota = q0;
+        if q0.iter().any(|q| q.is_none()) {
+            o.probe("tenant_with_resource_without_limit");
+        }
+        let payload = case.knob_u64("payload", 0).min(20_000) as usize;
+        // the WAL on the simulated disk (RocksDB stays on the real one); uninstalled at the end
+        struct FsGuard(Option<Arc<SimFs>>);
+        impl Drop for FsGuard {
+            fn drop(&mut self) {
+                if self.0.is_some() {
+                    SimFs::uninstall();
+                }
+            }
+        }
+        let fsg = FsGuard(if case.knob_bool("wal_on_simfs", false) { Some(SimFs::new()) } else { None });
+        if let Some(fs) = &fsg.0 {
+            fs.install();
+        }
+        let walfail: Option<(u64, u64, std::io::ErrorKind)> = case.events.iter().find(|e| op(e) == "walfail").filter(|_| fsg.0.is_some()).map(|e| {
+            let kind = match u(e, "err") % 3 {
+                0 => std::io::ErrorKind::Other,
+                1 => std::io::ErrorKind::StorageFull,
+                _ => std::io::ErrorKind::PermissionDenied,
+            };
+            (u(e, "phase") % 2, u(e, "nth") % 8, kind)
+        });
+        let fired = |fsg: &FsGuard| -> u64 { fsg.0.as_ref().map(|f| f.faults_fired().iter().filter(|(k, _)| k.starts_with("io_error.")).map(|(_, n)| *n).sum()).unwrap_or(0) };
+        let arm = |fsg: &FsGuard, phase: u64| {
+            if let (Some(fs), Some((ph, nth, kind))) = (&fsg.0, walfail) {
+                if ph == phase && fs.faults_fired().is_empty() {
+                    fs.set_fail(Some((fs.op_count() + nth, kind)));
+                }
+            }
+        };
+        let pm = match open(&dir, q0) {
             Ok(p) => Arc::new(p),
             Err(e) => {
                 o.violate(Violation::new("C18/open/error", e, 0));
@@ -277,16 +405,27 @@ impl Scenario for C18 {
         };
         let mut next_id = [1u64, 1u64];
         let mut attempts: Vec<Attempt> = Vec::new();
-        let mut class_parts: Vec<String> = vec![format!("q{qn}/{qe}")];
+        let mut class_parts: Vec<String> = vec![format!("q{}|p{payload}|f{:?}", qdesc(q0), walfail.map(|w| (w.0, w.1)))];
         // ---- sequential creations before the writers
-        for ev in case.events.iter().filter(|e| op(e) == "pre") {
+        for ev in case.events.iter().filter(|e| op(e) == "pre" || op(e) == "checkpoint") {
+            if op(ev) == "checkpoint" {
+                if let Err(e) = pm.checkpoint() {
+                    o.violate(Violation::new("C18/checkpoint/error", e.to_string(), 0));
+                }
+                class_parts.push("ckpt".into());
+                o.steps += 1;
+                continue;
+            }
             let kind = (u(ev, "kind") % 2) as usize;
             let id = next_id[kind];
             next_id[kind] += 1;
-            attempts.push(create(&pm, "pre", kind, id));
+            attempts.push(create(&pm, "pre", kind, id, payload));
             class_parts.push(format!("pre{kind}"));
             o.steps += 1;
         }
+        // ---- fault: one WAL file-system call from here on fails
+        arm(&fsg, 0);
+        let counted_before_writers = attempts.iter().filter(|a| a.ok).count();
         // ---- writers
         let programs: Vec<Vec<(usize, u64)>> = case
             .events
@@ -319,7 +458,9 @@ impl Scenario for C18 {
             let ctl = ThreadCtl::new(programs.len());
             ctl.install();
             // H7: the same controller also receives the lock-acquisition points
-            samyama::verif::sync::set_lock_handler(Some(ctl.clone() as Arc<dyn PointHandler>));
+            if case.knob_bool("lock_points", true) {
+                samyama::verif::sync::set_lock_handler(Some(ctl.clone() as Arc<dyn PointHandler>));
+            }
             let results: Arc<Mutex<Vec<Attempt>>> = Arc::new(Mutex::new(Vec::new()));
             let mut handles = Vec::new();
             for (ix, prog) in programs.iter().enumerate() {
@@ -328,7 +469,7 @@ impl Scenario for C18 {
                 let prog = prog.clone();
                 handles.push(ctl.spawn(ix, move || {
                     for (kind, id) in prog {
-                        let a = create(&pm2, &format!("w{ix}"), kind, id);
+                        let a = create(&pm2, &format!("w{ix}"), kind, id, payload);
                         res2.lock().unwrap_or_else(|e| e.into_inner()).push(a);
                     }
                 }));
@@ -418,36 +559,128 @@ impl Scenario for C18 {
         if split_call {
             o.probe("writer_parked_between_two_lock_acquisitions_of_one_call");
         }
-        if attempts.iter().any(|a| !a.ok && a.who.starts_with('w')) {
+        if attempts.iter().any(|a| !a.ok && a.quota_error && a.who.starts_with('w')) {
             o.probe("writer_refused");
         }
         for kind in 0..2 {
             let acc = attempts.iter().filter(|a| a.kind == kind && a.ok).count();
-            let refused = attempts.iter().filter(|a| a.kind == kind && !a.ok).count();
-            if refused > 0 && acc < [qn, qe][kind] {
+            let refused = attempts.iter().filter(|a| a.kind == kind && !a.ok && a.quota_error).count();
+            if refused > 0 && quota[kind].map(|q| acc < q).unwrap_or(true) {
                 o.probe("refused_while_room_remained");
             }
         }
+        // state class of the signatures from here on: a creation was refused by the log
+        let mut wal_refusal_seen = false;
+        let mut note_wal = |o: &mut Outcome, attempts: &[Attempt], fsg: &FsGuard, counted_before: usize| -> bool {
+            let n = fired(fsg);
+            if n > 0 {
+                o.fault("wal_io_error");
+            }
+            if attempts.iter().any(|a| !a.ok && a.wal_error) {
+                o.probe("creation_refused_by_failed_wal_append");
+                // the refused creation met counters that were not 0: someone had been counted
+                // before it (or reserved concurrently with it)
+                if counted_before > 0 || attempts.iter().filter(|a| a.ok).count() > 0 {
+                    o.probe("wal_append_failed_for_tenant_with_counted_entities");
+                }
+                return true;
+            }
+            false
+        };
+        wal_refusal_seen |= note_wal(&mut o, &attempts, &fsg, counted_before_writers);
         let mut pm_opt: Option<Arc<PersistenceManager>> = Some(pm);
         {
             let pmr = pm_opt.as_ref().unwrap();
-            let mut c = Check { pm: pmr, quota: [qn, qe], out: Vec::new(), sched: sched_desc.clone() };
-            c.all(&attempts, "after_writers", 0);
+            let mut c = Check { pm: pmr, quota, writers_quota: q0, wal_faults_fired: fired(&fsg), out: Vec::new(), sched: sched_desc.clone() };
+            c.all(&attempts, if wal_refusal_seen { "after_writers_with_failed_wal_append" } else { "after_writers" }, 0);
             o.steps += 1;
             for v in c.out {
                 o.violate(v);
             }
         }
+        // ---- between phases: limits introduced / replaced (update_quotas), then sequential
+        // creations on the same manager.  Its counters have seen every creation, so from the
+        // moment a limit exists nothing may be accepted while storage holds >= that limit.
+        let mut mid_phase = "after_writers";
+        arm(&fsg, 1);
+        for ev in case.events.iter().filter(|e| op(e) == "setq" || op(e) == "mid" || op(e) == "midckpt").take(8) {
+            if !o.violations.is_empty() {
+                break;
+            }
+            let pmr = pm_opt.as_ref().unwrap();
+            if op(ev) == "midckpt" {
+                // closes the current log file: the next append has to open a new one
+                if let Err(e) = pmr.checkpoint() {
+                    if !(matches!(e, PersistenceError::Wal(_)) && fired(&fsg) > 0) {
+                        o.violate(Violation::new("C18/checkpoint/error", e.to_string(), 0));
+                        break;
+                    }
+                }
+                class_parts.push("ckpt".into());
+                o.steps += 1;
+                continue;
+            }
+            if op(ev) == "setq" {
+                let newq: Quota = [Some(1 + (u(ev, "nodes").saturating_sub(1) % 2) as usize), Some(1 + (u(ev, "edges").saturating_sub(1) % 2) as usize)];
+                if (0..2).any(|k| quota[k].is_none()) {
+                    o.probe("limit_introduced_later");
+                    mid_phase = "after_limit_introduced";
+                } else if mid_phase == "after_writers" {
+                    mid_phase = "after_limits_replaced";
+                }
+                if let Err(e) = pmr.tenants().update_quotas(TENANT, quotas_of(newq)) {
+                    o.violate(Violation::new("C18/update_quotas/error", e.to_string(), 0));
+                    break;
+                }
+                quota = newq;
+                class_parts.push(format!("setq{}", qdesc(newq)));
+                o.steps += 1;
+                continue;
+            }
+            let kind = (u(ev, "kind") % 2) as usize;
+            let id = next_id[kind];
+            next_id[kind] += 1;
+            let mut c = Check { pm: pmr, quota, writers_quota: q0, wal_faults_fired: 0, out: Vec::new(), sched: sched_desc.clone() };
+            let held: usize = c.stored(kind, 0).map(|m| m.values().sum()).unwrap_or(0);
+            let counted = attempts.iter().filter(|a| a.ok).count();
+            let a = create(pmr, "mid", kind, id, payload);
+            if let Some(q) = quota[kind] {
+                if !a.ok && a.quota_error && mid_phase == "after_limit_introduced" {
+                    o.probe("creation_refused_after_limit_introduced");
+                }
+                if a.ok && held >= q {
+                    c.fail(
+                        format!("C18/quota_exceeded/{}/{mid_phase}", KINDS[kind]),
+                        format!("storage held {held} {} (limit {q}, same manager, no restart), yet a further creation (id {id}) was accepted", KINDS[kind]),
+                        0,
+                    );
+                }
+            }
+            attempts.push(a);
+            wal_refusal_seen |= note_wal(&mut o, &attempts[attempts.len() - 1..], &fsg, counted);
+            class_parts.push(format!("mid{kind}"));
+            o.steps += 1;
+            c.wal_faults_fired = fired(&fsg);
+            c.all(&attempts, if wal_refusal_seen { "after_sequential_creations_with_failed_wal_append" } else { "after_sequential_creations" }, 0);
+            for v in c.out {
+                o.violate(v);
+            }
+        }
+        if let Some(fs) = &fsg.0 {
+            fs.set_fail(None); // the fault window ends here: restart / recovery run fault-free
+        }
+        let wal_fired = fired(&fsg);
         // ---- recovery (optionally in a restarted process), repeated on the same manager
         let n_rec = case.events.iter().filter(|e| op(e) == "recover").count().min(3);
         let mut stop = !o.violations.is_empty() && o.violations.iter().any(|v| v.signature.starts_with("C18/panic") || v.signature.starts_with("C18/scan_error"));
         // state class of the after-recovery signatures: what the recovering manager had seen
         let mut rec_phase = "after_recover";
+        let mut restarted = false;
         let rwrites: Vec<usize> = case.events.iter().filter(|e| op(e) == "rwrite").take(3).map(|e| (u(e, "kind") % 2) as usize).collect();
         if n_rec > 0 && (restart || !rwrites.is_empty()) && !stop {
             o.probe("restart_before_recover");
             pm_opt = None; // drop: releases RocksDB's LOCK
-            match open(&dir, qn, qe) {
+            match open(&dir, quota) {
                 Ok(p) => pm_opt = Some(Arc::new(p)),
                 Err(e) => {
                     o.violate(Violation::new("C18/reopen/error", e, 0));
@@ -455,6 +688,7 @@ impl Scenario for C18 {
                 }
             }
             class_parts.push("restart".into());
+            restarted = true;
             // ---- the restarted process accepts creations BEFORE it recovers the tenant:
             // its counters start at 0 and know nothing of what is stored, so whether these
             // are accepted is not judged (see assumptions); what recover makes of counters
@@ -464,12 +698,12 @@ impl Scenario for C18 {
                 for kind in &rwrites {
                     let kind = *kind;
                     let held_before: usize = {
-                        let mut c = Check { pm: pmr, quota: [qn, qe], out: Vec::new(), sched: sched_desc.clone() };
+                        let mut c = Check { pm: pmr, quota, writers_quota: q0, wal_faults_fired: wal_fired, out: Vec::new(), sched: sched_desc.clone() };
                         c.stored(kind, 0).map(|m| m.values().sum()).unwrap_or(0)
                     };
                     let id = next_id[kind];
                     next_id[kind] += 1;
-                    let a = create(pmr, "rw", kind, id);
+                    let a = create(pmr, "rw", kind, id, payload);
                     o.probe("creation_on_restarted_manager_before_recover");
                     if a.ok && held_before > 0 {
                         o.probe("recover_on_manager_with_running_counters_and_stored_data");
@@ -490,7 +724,7 @@ impl Scenario for C18 {
                 o.steps += 1;
                 match pmr.recover(TENANT) {
                     Ok((ns, es)) => {
-                        let mut c = Check { pm: pmr, quota: [qn, qe], out: Vec::new(), sched: sched_desc.clone() };
+                        let mut c = Check { pm: pmr, quota, writers_quota: q0, wal_faults_fired: wal_fired, out: Vec::new(), sched: sched_desc.clone() };
                         for (kind, n) in [(0usize, ns.len()), (1usize, es.len())] {
                             if let Some(st) = c.stored(kind, i + 1) {
                                 let total: usize = st.values().sum();
@@ -515,15 +749,21 @@ impl Scenario for C18 {
                     let kind = (u(ev, "kind") % 2) as usize;
                     let id = next_id[kind];
                     next_id[kind] += 1;
-                    let mut c = Check { pm: pmr, quota: [qn, qe], out: Vec::new(), sched: sched_desc.clone() };
+                    let mut c = Check { pm: pmr, quota, writers_quota: q0, wal_faults_fired: wal_fired, out: Vec::new(), sched: sched_desc.clone() };
                     let held: usize = c.stored(kind, n_rec + 1).map(|m| m.values().sum()).unwrap_or(0);
-                    let a = create(pmr, "post", kind, id);
+                    let a = create(pmr, "post", kind, id, payload);
+                    // judged when the manager's counters cover everything stored: it recovered the
+                    // tenant, or it is the manager that accepted every creation itself
+                    let judged = n_rec > 0 || !restarted;
                     if !a.ok {
-                        o.probe("post_recover_creation_refused");
-                    } else if held >= [qn, qe][kind] {
+                        if n_rec > 0 {
+                            o.probe("post_recover_creation_refused");
+                        }
+                    } else if judged && quota[kind].map(|q| held >= q).unwrap_or(false) {
+                        let ph = if n_rec > 0 { rec_phase } else { mid_phase };
                         c.fail(
-                            format!("C18/quota_exceeded/{}/{rec_phase}", KINDS[kind]),
-                            format!("after recovery storage held {held} {} (quota {}), yet a further creation (id {id}) was accepted", KINDS[kind], [qn, qe][kind]),
+                            format!("C18/quota_exceeded/{}/{ph}", KINDS[kind]),
+                            format!("storage held {held} {} (quota {}), yet a further creation (id {id}) was accepted", KINDS[kind], qdesc(quota)),
                             n_rec + 1,
                         );
                     }
@@ -534,8 +774,10 @@ impl Scenario for C18 {
                     class_parts.push(format!("post{kind}"));
                     o.steps += 1;
                 }
-                let mut c = Check { pm: pmr, quota: [qn, qe], out: Vec::new(), sched: sched_desc.clone() };
-                c.all(&attempts, if n_rec > 0 { rec_phase } else { "after_writers" }, n_rec + 1);
+                let mut c = Check { pm: pmr, quota, writers_quota: q0, wal_faults_fired: wal_fired, out: Vec::new(), sched: sched_desc.clone() };
+                if n_rec > 0 || !restarted {
+                    c.all(&attempts, if n_rec > 0 { rec_phase } else { "after_sequential_creations" }, n_rec + 1);
+                }
                 for v in c.out {
                     o.violate(v);
                 }
@@ -549,6 +791,7 @@ impl Scenario for C18 {
         let final_usage = pm_opt.as_ref().and_then(|p| p.tenants().get_usage(TENANT).ok()).map(|u| (u.node_count, u.edge_count));
         o.state_hash = hash_str(&format!("{:?}|{:?}|{}", attempts.iter().map(|a| (a.who.clone(), a.kind, a.id, a.ok)).collect::<Vec<_>>(), final_usage, sched_desc));
         drop(pm_opt);
+        drop(fsg);
         o
     }
 }
